@@ -119,6 +119,32 @@ Proof.
   apply G. intros x Hx. discriminate Hx.
 Qed.
 
+(* the entry-point lemmas with the boolean predicates *)
+Lemma c16_hparse_sps_total_b nalu :
+  c16_hparse_sps nalu = Err \/ exists s, c16_hparse_sps nalu = Ok s /\ hsps_wfb s = true.
+Proof.
+  destruct (c16_hparse_sps_total nalu) as [E|(s & E & H)]; [left; exact E|right].
+  exists s. split; [exact E|apply hsps_wfb_ok, H].
+Qed.
+
+Lemma c16_hparse_pps_total_b spsmap nalu :
+  c16_hparse_pps spsmap nalu = Err \/ c16_hparse_pps spsmap nalu = OutOfFuel \/
+  exists p, c16_hparse_pps spsmap nalu = Ok p /\ hpps_wfb p = true.
+Proof.
+  destruct (c16_hparse_pps_total spsmap nalu) as [E|[E|(p & E & H)]]; [left; exact E|right; left; exact E|right; right].
+  exists p. split; [exact E|apply hpps_wfb_ok, H].
+Qed.
+
+Lemma c16_hparse_slice_total_b spsmap ppsmap nalu :
+  (forall id sp, spsmap id = Some sp -> hsps_wfb sp = true) ->
+  (forall id pp, ppsmap id = Some pp -> hpps_wfb pp = true) ->
+  c16_hparse_slice spsmap ppsmap nalu = Err \/ exists h, c16_hparse_slice spsmap ppsmap nalu = Ok h.
+Proof.
+  intros H1 H2. apply c16_hparse_slice_total.
+  - intros id sp E. apply hsps_wfb_ok, (H1 id sp E).
+  - intros id pp E. apply hpps_wfb_ok, (H2 id pp E).
+Qed.
+
 (* the whole pipeline: hostile SPS -> PPS parsed against it -> slice header parsed against both *)
 Lemma hevc_ps_and_slice_total cs cp a b rest :
   forallb hsps_wfb cs = true -> forallb hpps_wfb cp = true ->
